@@ -1,6 +1,7 @@
 package servlab
 
 import (
+	"bytes"
 	"encoding/json"
 	"fmt"
 	"math"
@@ -482,6 +483,46 @@ func c04Type(r *ev.Run, pkg *Package, cfg C04Pkg, t reflect.Type, idx int) {
 		} else if verr != nil {
 			r.Violate("json/decoded-value-invalid", fmt.Sprintf("%s: value decoded from own encoding fails Validate: %v", where, verr), w(map[string]any{"json": clip(text)}))
 			continue
+		}
+		// G. the standard-library face of the codec: what MarshalJSON returned stays what it was when the codec is used
+		// again (the caller owns the bytes), equals the Encode text, and UnmarshalJSON reads it back
+		if mj, ok := reflect.PointerTo(t).MethodByName("MarshalJSON"); ok && mj.Type.NumIn() == 1 && mj.Type.NumOut() == 2 {
+			call := func(x reflect.Value) ([]byte, string) {
+				var out []byte
+				pan, txt := ev.Guard(func() {
+					p := reflect.New(t)
+					p.Elem().Set(x)
+					res := mj.Func.Call([]reflect.Value{p})
+					if res[1].IsNil() {
+						out, _ = res[0].Interface().([]byte)
+					}
+				})
+				if pan {
+					return nil, txt
+				}
+				return out, ""
+			}
+			m1, pan := call(v)
+			if pan != "" {
+				r.Violate("json/marshal-panic", fmt.Sprintf("%s: MarshalJSON panicked: %s", where, pan), w(nil))
+				continue
+			}
+			if m1 != nil {
+				keep := append([]byte(nil), m1...)
+				// use the codec again, with other values, before looking at the first result
+				call(v2)
+				call(v1)
+				encodeJSON(enc, v2)
+				r.Count("marshaljson_results_checked_after_reuse", 1)
+				if !bytes.Equal(m1, keep) {
+					r.Violate("json/marshaljson-result-changes-after-next-call", fmt.Sprintf("%s: the bytes MarshalJSON returned changed when MarshalJSON was called again: %s -> %s", where, clip(keep), clip(m1)), w(map[string]any{"json": clip(keep), "json2": clip(m1)}))
+					continue
+				}
+				if pm, err := jsonv.Parse(keep); err != nil || !jsonv.Equal(pm, pv) {
+					r.Violate("json/marshaljson-differs-from-encode", fmt.Sprintf("%s: MarshalJSON wrote %s, Encode wrote %s", where, clip(keep), clip(text)), w(map[string]any{"json": clip(text), "json2": clip(keep)}))
+					continue
+				}
+			}
 		}
 		r.Count("round_trips_exact", 1)
 		if idx%97 == 0 && k == 0 {
